@@ -57,9 +57,9 @@ package sql
 //@   ensures[C04] predicate-is-the-query: (result == nil && old(predfresh(q))) ==> predquery(q, rq)
 
 // ---- C07: keyset pagination
-// a plain errors.New value carries no status code: herodot answers 500 for it (read off the
-// initialiser in internal/persistence/definitions.go; T5/T11)
-//@ globalinv persistence.ErrMalformedPageToken: val != nil && errstatus(val) == 500
+// herodot.ErrBadRequest.WithError(...): status 400 (read off the initialiser in
+// internal/persistence/definitions.go; T5/T11). Before fix a plain errors.New value: 500.
+//@ globalinv persistence.ErrMalformedPageToken: val != nil && errstatus(val) == 400
 
 //@ func (*internalPagination).parsePageToken
 //@   props C07 C13
